@@ -282,6 +282,9 @@ func (f *Fam) expLive(t *MTok) (live bool, dontcare bool) {
 	if t.Kind == "rt" && f.W.P.DisableRTValidation && f.inSweep {
 		return false, false // refresh-token introspection disabled: never reported active
 	}
+	if t.Kind == "rt" && f.W.P.StatelessJWTIntrospectionFirst && f.inSweep {
+		return false, true // the stateless JWT validator in front cannot read an opaque refresh token: not pinned
+	}
 	if t.Status != "live" {
 		return false, false
 	}
@@ -302,7 +305,7 @@ func (f *Fam) resync(filter func(t *MTok) bool) {
 		if filter != nil && !filter(t) {
 			continue
 		}
-		if t.Kind == "rt" && f.W.P.DisableRTValidation {
+		if t.Kind == "rt" && (f.W.P.DisableRTValidation || f.W.P.StatelessJWTIntrospectionFirst) {
 			continue // not observable through introspection in this configuration
 		}
 		if live, dc := f.expLive(t); live && !dc {
